@@ -996,6 +996,72 @@ fn main() {
             }
             extra = json!({"rounds": 5, "worst_wait_ms": worst as u64});
         }
+        "scope-counter-wrap" => {
+            // 2^32 local scopes opened and closed on one thread (the age of a long-lived worker
+            // thread that polls instrumented futures); afterwards local spans still nest and close
+            // exactly as on a young thread
+            let rep = install(false);
+            let n: u64 = (1u64 << 32) + 1000;
+            let t = Instant::now();
+            for _ in 0..n {
+                let lc = fastrace::local::LocalCollector::start();
+                drop(lc);
+            }
+            let opened_s = t.elapsed().as_secs_f64();
+            let rep2 = rep.clone();
+            let check = move |tag: u128| -> Vec<String> {
+                let rep = rep2.clone();
+                let mut bad = vec![];
+                let root = Span::root("root", SpanContext::new(TraceId(0xf300 + tag), SpanId(1)));
+                let root_id = SpanContext::from_span(&root).map(|c| c.span_id);
+                {
+                    let _g = root.set_local_parent();
+                    let first = LocalSpan::enter_with_local_parent("first");
+                    let inside = SpanContext::current_local_parent().map(|c| c.span_id);
+                    drop(first);
+                    let after = SpanContext::current_local_parent().map(|c| c.span_id);
+                    if inside == root_id || inside.is_none() {
+                        bad.push(format!("inside the local span the local parent was {:?} (root {:?})", inside, root_id));
+                    }
+                    if after != root_id {
+                        bad.push(format!("after the local span was dropped the local parent was {:?}, expected the scope's span {:?}", after, root_id));
+                    }
+                    let _second = LocalSpan::enter_with_local_parent("second").with_properties(|| [("k", "v")]);
+                    LocalSpan::add_event(Event::new("ev"));
+                }
+                drop(root);
+                fastrace::flush();
+                let recs = rep.0.lock().unwrap();
+                let mine: Vec<&SpanRecord> = recs.iter().filter(|r| r.trace_id.0 == 0xf300 + tag).collect();
+                let by = |n: &str| mine.iter().find(|r| r.name == n).cloned();
+                match (by("root"), by("first"), by("second")) {
+                    (Some(r), Some(f), Some(s2)) => {
+                        if f.parent_id != r.span_id || s2.parent_id != r.span_id {
+                            bad.push(format!("parents: first under {:x}, second under {:x}, root is {:x} (first is {:x})", f.parent_id.0, s2.parent_id.0, r.span_id.0, f.span_id.0));
+                        }
+                        if s2.properties.len() != 1 || s2.events.len() != 1 || !f.events.is_empty() {
+                            bad.push(format!("second has {} properties / {} events, first has {} events (expected 1 / 1 / 0)", s2.properties.len(), s2.events.len(), f.events.len()));
+                        }
+                    }
+                    _ => bad.push(format!("delivered {:?}", mine.iter().map(|r| r.name.to_string()).collect::<Vec<_>>())),
+                }
+                bad
+            };
+            let young = std::thread::spawn({
+                let check = check.clone();
+                move || check(1)
+            })
+            .join()
+            .unwrap();
+            let old = check(2);
+            extra = json!({"scopes_opened_on_one_thread": n, "seconds": opened_s, "young_thread": young, "old_thread": old});
+            if !young.is_empty() {
+                panic!("harness: the control on a young thread failed: {:?}", young);
+            }
+            if !old.is_empty() {
+                panic!("on a thread that had opened 2^32 local scopes before: {:?}", old);
+            }
+        }
         "id-counter-wrap" => {
             // 2^32 span ids on one thread: the per-thread counter wraps; no call may panic
             // (about a minute in a debug build; thorough tier only)
